@@ -862,4 +862,207 @@ theorem build_eq (lhs rhs : MechTable) (mode : Gen.JoinKernel.JoinMode) :
     simp only [hm]
     cases mode <;> simp only [inner_pair_fold, stepMark] <;> (try split) <;> simp_all [setAll, List.isEmpty_iff]
 
+/-! ### the result read as a model table -/
+
+theorem IndexMap.insert_not_mem {ν : Type} : ∀ (d : IndexMap Nat ν) (k : Nat) (v : ν),
+    k ∉ d.map Prod.fst → IndexMap.insert d k v = d ++ [(k, v)] := by
+  intro d
+  induction d with
+  | nil => intro k v _; rfl
+  | cons e d ih =>
+    intro k v h
+    obtain ⟨k', v'⟩ := e
+    simp only [List.map_cons, List.mem_cons, not_or] at h
+    have : (k' == k) = false := by simpa using fun hh => h.1 hh.symm
+    simp only [IndexMap.insert, this, Bool.false_eq_true, if_false, List.cons_append, ih k v h.2]
+
+theorem finish_fold (out : List (HashMap Nat Value)) : ∀ (oc : List (Nat × ValueKind × String))
+    (d : IndexMap Nat (ValueKind × Matrix Value)) (n : HashMap Nat String),
+    (d.map Prod.fst ++ oc.map Prod.fst).Nodup →
+    oc.foldl (fun (s : IndexMap Nat (ValueKind × Matrix Value) × HashMap Nat String) c =>
+      (IndexMap.insert s.1 c.1 (c.2.1, out.map (fun row => Option.getD (AList.get row c.1) Value.Empty)),
+       HashMap.insert s.2 c.1 c.2.2)) (d, n) =
+    (d ++ oc.map (fun c => (c.1, (c.2.1, out.map (fun row => Option.getD (AList.get row c.1) Value.Empty)))),
+     (oc.map (fun c => (c.1, c.2.2))).reverse ++ n) := by
+  intro oc
+  induction oc with
+  | nil => intro d n _; simp
+  | cons c oc ih =>
+    intro d n hnd
+    have hc : c.1 ∉ d.map Prod.fst := by
+      intro hm
+      have := (List.nodup_append.1 hnd).2.2 _ hm _ (List.mem_map.2 ⟨c, List.mem_cons_self .., rfl⟩)
+      exact this rfl
+    rw [List.foldl_cons, IndexMap.insert_not_mem d _ _ hc, ih]
+    · simp [HashMap.insert]
+    · simp only [List.map_append, List.map_cons, List.map_nil, List.append_assoc, List.cons_append, List.nil_append]
+      simpa using hnd
+
+theorem rows_of_columns {α : Type} (cs : List α) (out : List (HashMap Nat Value)) (key : α → Nat) :
+    (rangeIncl 1 out.length).map (fun r => cs.map (fun c =>
+        (index1d (out.map (fun row => Option.getD (AList.get row (key c)) Value.Empty)) r).cell)) =
+      out.map (fun row => cs.map (fun c => (Option.getD (AList.get row (key c)) Value.Empty).cell)) := by
+  apply List.ext_getElem
+  · simp [rangeIncl]
+  · intro k h1 h2
+    have hk : k < out.length := by simpa using h2
+    simp only [List.getElem_map, rangeIncl, List.getElem_range']
+    apply List.map_congr_left
+    intro c _
+    simp [index1d, hk]
+
+theorem finish_rows (oc : List (Nat × ValueKind × String)) (out : List (HashMap Nat Value))
+    (hnd : (oc.map Prod.fst).Nodup) : rowsOf (finish oc out) = out.map (readRow (oc.map Prod.fst)) := by
+  simp only [rowsOf, finish]
+  rw [finish_fold out oc IndexMap.new HashMap.new (by simpa [IndexMap.new] using hnd)]
+  unfold rowAt
+  simp only [IndexMap.new, List.nil_append, List.map_map, Function.comp_def]
+  rw [rows_of_columns oc out Prod.fst]
+  simp [readRow, Function.comp_def]
+
+theorem finish_cols (oc : List (Nat × ValueKind × String)) (out : List (HashMap Nat Value))
+    (hnd : (oc.map Prod.fst).Nodup) :
+    colsOf (finish oc out) = oc.map (fun c => ⟨c.2.2, c.2.1.scalar, c.2.1.isOpt⟩) := by
+  simp only [colsOf, finish, nameOf]
+  rw [finish_fold out oc IndexMap.new HashMap.new (by simpa [IndexMap.new] using hnd)]
+  simp only [IndexMap.new, HashMap.new, List.nil_append, List.append_nil, List.map_map, Function.comp_def]
+  apply List.map_congr_left
+  intro c hc
+  have : AList.get (oc.map (fun c => (c.1, c.2.2))).reverse c.1 = some c.2.2 := by
+    apply lookup_of_mem
+    · rw [← List.map_reverse, List.map_map]
+      have : (Prod.fst ∘ fun (c : Nat × ValueKind × String) => (c.1, c.2.2)) = Prod.fst := by funext p; rfl
+      rw [this, List.map_reverse]
+      exact hnd.perm (List.reverse_perm _).symm
+    · simp only [List.mem_reverse, List.mem_map]
+      exact ⟨c, hc, rfl⟩
+  simp [this]
+
+/-! ### the rows -/
+
+def outIds (lhs rhs : MechTable) (mode : Gen.JoinKernel.JoinMode) : List Nat :=
+  if isSA mode then lhs.data.map Prod.fst else lhs.data.map Prod.fst ++ (roData lhs rhs).map Prod.fst
+
+theorem outputCols_ids (lhs rhs : MechTable) (mode : Gen.JoinKernel.JoinMode) :
+    (outputCols lhs rhs mode).map Prod.fst = outIds lhs rhs mode := by
+  unfold outputCols outIds
+  split <;> simp [List.map_map, Function.comp_def]
+
+theorem outIds_nodup {lhs rhs : MechTable} (hl : WF lhs) (hr : WF rhs) (hc : Compat lhs rhs)
+    (mode : Gen.JoinKernel.JoinMode) : (outIds lhs rhs mode).Nodup := by
+  unfold outIds
+  split
+  · exact hl.ids_nodup
+  · rw [List.nodup_append]
+    refine ⟨hl.ids_nodup, roData_nodup hr, ?_⟩
+    intro a ha b hb hab
+    subst hab
+    obtain ⟨e, he, rfl⟩ := List.mem_map.1 hb
+    exact roData_disjoint hl hr hc he ha
+
+theorem matched_rows {lhs rhs : MechTable} (hl : WF lhs) (hr : WF rhs) (i : Nat) :
+    (rowsOf rhs).filter (rowsMatch (commonCols (colsOf lhs) (colsOf rhs)) (rowAt lhs i)) =
+      (matchedRhs lhs rhs i).map (rowAt rhs) := by
+  simp only [rowsOf, matchedRhs, List.filter_map]
+  congr 1
+  apply List.filter_congr
+  intro r _
+  simp [rows_match_eq hl hr]
+
+theorem stepOut_read {lhs rhs : MechTable} (hl : WF lhs) (hr : WF rhs) (hc : Compat lhs rhs)
+    (mode : Gen.JoinKernel.JoinMode) (i : Nat) :
+    (stepOut lhs rhs mode i).map (readRow (outIds lhs rhs mode)) =
+      rowsFor (toMode mode) (commonCols (colsOf lhs) (colsOf rhs)) (rhsOnly (colsOf lhs) (colsOf rhs)) (rowsOf rhs)
+        (rowAt lhs i) := by
+  have hmerge : ∀ r, readRow (lhs.data.map Prod.fst ++ (roData lhs rhs).map Prod.fst)
+      (merge_rows lhs i rhs r (crhs lhs rhs) false) =
+        mergeRow (rhsOnly (colsOf lhs) (colsOf rhs)) (rowAt lhs i) (rowAt rhs r) := by
+    intro r; have := merge_rows_read hl hr hc i r false; simpa [crhs] using this
+  have hpad : readRow (lhs.data.map Prod.fst ++ (roData lhs rhs).map Prod.fst)
+      (merge_rows lhs i rhs 0 (crhs lhs rhs) true) = padRight (rhsOnly (colsOf lhs) (colsOf rhs)) (rowAt lhs i) := by
+    have := merge_rows_read hl hr hc i 0 true; simpa [crhs] using this
+  have hempty : ((rowsOf rhs).filter (rowsMatch (commonCols (colsOf lhs) (colsOf rhs)) (rowAt lhs i))).isEmpty =
+      (matchedRhs lhs rhs i).isEmpty := by
+    rw [matched_rows hl hr]; simp
+  cases mode <;> simp only [stepOut, rowsFor, toMode, outIds, isSA, hempty, Bool.false_eq_true, if_false, if_true]
+  · rw [matched_rows hl hr]; simp [List.map_map, Function.comp_def, hmerge]
+  · split
+    · simp [hpad]
+    · rw [matched_rows hl hr]; simp [List.map_map, Function.comp_def, hmerge]
+  · rw [matched_rows hl hr]; simp [List.map_map, Function.comp_def, hmerge]
+  · split
+    · simp [hpad]
+    · rw [matched_rows hl hr]; simp [List.map_map, Function.comp_def, hmerge]
+  · split <;> simp [lhs_only_row_read hl]
+  · split <;> simp [lhs_only_row_read hl]
+
+theorem mem_rangeIncl (r n : Nat) : r ∈ rangeIncl 1 n ↔ 1 ≤ r ∧ r ≤ n := by
+  simp only [rangeIncl, List.mem_range'_1]; omega
+
+theorem vecGet_replicate_false (n k : Nat) : vecGet (List.replicate n false) k = false := by
+  simp only [vecGet, List.getElem?_replicate]; split <;> rfl
+
+theorem marks_get {lhs rhs : MechTable} (mode : Gen.JoinKernel.JoinMode) (hrf : isRF mode = true) (r : Nat)
+    (hr : r ∈ rangeIncl 1 rhs.rows) :
+    vecGet (marks lhs rhs mode) (r - 1) =
+      (rangeIncl 1 lhs.rows).any (fun i => rows_match lhs i rhs r (ccIds lhs rhs)) := by
+  have hstep : stepMark lhs rhs mode = fun m i => setAll m (matchedRhs lhs rhs i) := by
+    funext m i; cases mode <;> first | rfl | cases hrf
+  rw [marks, hstep, vecGet_foldl_setAll, vecGet_replicate_false, Bool.false_or]
+  obtain ⟨h1, h2⟩ := (mem_rangeIncl r _).1 hr
+  have hlt : r - 1 < (List.replicate rhs.rows false).length := by simp; omega
+  simp only [hlt, decide_true, Bool.true_and]
+  congr 1
+  funext i
+  rw [Bool.eq_iff_iff, List.any_eq_true]
+  constructor
+  · rintro ⟨r', hr', he⟩
+    simp only [matchedRhs, List.mem_filter] at hr'
+    have := (mem_rangeIncl r' _).1 hr'.1
+    have : r' = r := by simp only [beq_iff_eq] at he; omega
+    subst this; exact hr'.2
+  · intro h
+    exact ⟨r, by simp only [matchedRhs, List.mem_filter]; exact ⟨hr, h⟩, by simp⟩
+
+theorem unmatched_read {lhs rhs : MechTable} (hl : WF lhs) (hr : WF rhs) (hc : Compat lhs rhs)
+    (mode : Gen.JoinKernel.JoinMode) (hrf : isRF mode = true) :
+    (((rangeIncl 1 rhs.rows).filter (fun r => !vecGet (marks lhs rhs mode) (r - 1))).map (unmatchedRow lhs rhs)).map
+        (readRow (outIds lhs rhs mode)) =
+      unmatchedRight (colsOf lhs).length (commonCols (colsOf lhs) (colsOf rhs)) (rhsOnly (colsOf lhs) (colsOf rhs))
+        (rowsOf lhs) (rowsOf rhs) := by
+  have hsa : isSA mode = false := by cases mode <;> first | rfl | cases hrf
+  simp only [unmatchedRight, rowsOf, List.filter_map, List.map_map, outIds, hsa, Bool.false_eq_true, if_false]
+  have hfilter : (rangeIncl 1 rhs.rows).filter (fun r => !vecGet (marks lhs rhs mode) (r - 1)) =
+      (rangeIncl 1 rhs.rows).filter ((fun b => !matchedBy (commonCols (colsOf lhs) (colsOf rhs))
+        (List.map (rowAt lhs) (rangeIncl 1 lhs.rows)) b) ∘ rowAt rhs) := by
+    apply List.filter_congr
+    intro r hrr
+    simp only [Function.comp, matchedBy, List.any_map, marks_get mode hrf r hrr]
+    congr 2
+    funext i
+    simp [rows_match_eq hl hr]
+  rw [hfilter]
+  apply List.map_congr_left
+  intro r _
+  simp only [Function.comp]
+  exact unmatchedRow_read hl hr hc r
+
+theorem kernel_rows {lhs rhs : MechTable} (hl : WF lhs) (hr : WF rhs) (hc : Compat lhs rhs)
+    (mode : Gen.JoinKernel.JoinMode) :
+    rowsOf (build_joined_table lhs rhs mode) =
+      specRows (toMode mode) (colsOf lhs) (colsOf rhs) (rowsOf lhs) (rowsOf rhs) := by
+  rw [build_eq, finish_rows _ _ (by rw [outputCols_ids]; exact outIds_nodup hl hr hc mode), outputCols_ids]
+  simp only [outRows, List.map_append, List.map_flatMap, stepOut_read hl hr hc]
+  have hflat : List.flatMap (fun i => rowsFor (toMode mode) (commonCols (colsOf lhs) (colsOf rhs))
+        (rhsOnly (colsOf lhs) (colsOf rhs)) (rowsOf rhs) (rowAt lhs i)) (rangeIncl 1 lhs.rows) =
+      (rowsOf lhs).flatMap (rowsFor (toMode mode) (commonCols (colsOf lhs) (colsOf rhs))
+        (rhsOnly (colsOf lhs) (colsOf rhs)) (rowsOf rhs)) := by
+    simp [rowsOf, List.flatMap_map]
+  rw [hflat]
+  cases hrf : isRF mode
+  · cases mode <;> simp [isRF] at hrf <;> simp [specRows, toMode]
+  · simp only [if_true]
+    rw [unmatched_read hl hr hc mode hrf]
+    cases mode <;> simp [isRF] at hrf <;> simp [specRows, toMode]
+
 end MechVerif.JoinIR
